@@ -230,6 +230,7 @@ def run(ctx):
     impls = hook_impls(c)
     R1 = ctx.rule("C36.front", "ordered-stream and snapshot hooks remove from the pending queue only at the front (pop_front / drain from 0); every VecDeque removal in a hook is classified", floor=6)
     R2 = ctx.rule("C36.kept", "every value a hook takes out of a pending queue reaches the hook's release slot and is not dropped on a normal path", floor=10)
+    R4 = ctx.rule("C36.lastreleased", "a snapshot hook overwrites `last_released` with every newly released snapshot (a re-release can never return an older version)", floor=2)
     R3 = ctx.rule("C36.released", "release_decision sends the complete release slot on the path where a decision exists", floor=14)
     if len(impls) < 14:
         ctx.anchor_missing(R1, "SimHook / SimInlineHook impls (%d found)" % len(impls))
@@ -294,6 +295,9 @@ def run(ctx):
                                   "release slot: a pending item is lost" % (nm, b.locals[dl][:80]), b.loc(dbb))
                 if not sunk and b.def_path == b.root:
                     ctx.violation(R2, k2 + "|never-released", "the value taken out of the pending queue with `%s` never reaches %s" % (nm, sorted(sink)), b.loc(sbb))
+        # ---- R4: snapshot hooks remember what they released
+        if snapshot:
+            check_last_released(ctx, R4, c, imp, key, bodies)
         # ---- R3
         rb = c.bodies.get(imp["def"] + "::release_decision")
         if rb is None:
@@ -361,3 +365,63 @@ def check_release(ctx, R3, c, b, key):
         ok, w = b.all_paths_pass(set(sends), rets, start=some)
         if not ok:
             ctx.violation(R3, key + "|slot-not-sent", "a path on which a decision exists returns without sending the release slot", b.loc(w if w is not None else some))
+
+
+def _overwrites_last_released(b):
+    """blocks of `b` (root body of a method) that overwrite self.last_released: a plain assignment to the field, or insert/replace on something derived from it.
+    `get_or_insert*` keeps an existing value and does not count."""
+    out = []
+    for bb in range(b.n):
+        if b.is_cleanup(bb):
+            continue
+        for st in b.stmts(bb):
+            if "lhs" in st and not isinstance(st["lhs"], int) and pl_local(st["lhs"]) == 1 and pl_fields(st["lhs"])[:1] == ["last_released"] and len(pl_fields(st["lhs"])) == 1:
+                out.append(bb)
+        t = b.term(bb)
+        if t["k"] == "call":
+            f = t.get("f") or {}
+            if f.get("name") in ("insert", "replace") and t.get("a") and "last_released" in derives_from_self_field(b, op_place(t["a"][0])):
+                out.append(bb)
+    return sorted(set(out))
+
+
+def check_last_released(ctx, R4, c, imp, key, dec_bodies):
+    rb = c.bodies.get(imp["def"] + "::release_decision")
+    dec = dec_bodies[0]
+    w_rel = _overwrites_last_released(rb) if rb is not None else []
+    w_dec = _overwrites_last_released(dec)
+    ctx.inst(R4, key, sites=len(w_rel) + len(w_dec), sample={"overwrites_in_release_decision": len(w_rel), "overwrites_in_autonomous_decision": len(w_dec)})
+    if not w_rel and not w_dec:
+        ctx.violation(R4, key + "|never-overwritten", "`last_released` is never overwritten with a released snapshot (only initialised): a later 'unchanged' re-release returns the first version "
+                      "although newer ones were released in between", (rb or dec).loc())
+        return
+    if w_rel:
+        # every path on which a decision is released passes an overwrite
+        takes = [bb for bb, t in rb.calls() if (t.get("f") or {}).get("name") == "take" and t.get("a") and "to_release" in derives_from_self_field(rb, op_place(t["a"][0]))]
+        if takes:
+            nxt = rb.term(takes[0]).get("t")
+            some = None
+            seen = set()
+            while nxt is not None and nxt not in seen:
+                seen.add(nxt)
+                sw = rb.term(nxt)
+                if sw["k"] == "switch":
+                    s1 = [tg for v, tg in sw["ts"] if int(v) == 1]
+                    some = s1[0] if s1 else sw["o"]
+                    break
+                sc = rb.succs(nxt)
+                nxt = sc[0] if len(sc) == 1 else None
+            if some is not None:
+                ok, w = rb.all_paths_pass(set(w_rel), set(rb.returns()), start=some)
+                if not ok:
+                    ctx.violation(R4, key + "|released-without-remembering", "a path of release_decision sends a snapshot without overwriting `last_released`", rb.loc(w if w is not None else some))
+    if w_dec:
+        # every newly chosen snapshot (pop_front) is remembered before the next iteration / return
+        pops = [bb for bb, t in dec.calls() if (t.get("f") or {}).get("name") == "pop_front" and "vec_deque::" in (t.get("f") or {}).get("def", "")]
+        for pb in pops:
+            exits = set(dec.returns())
+            # loop headers: blocks that dominate pb and are reachable from it
+            heads = set(h for h in range(dec.n) if dec.term(h)["k"] == "call" and (dec.term(h).get("f") or {}).get("name") == "next" and pb in dec.reachable(start=h) and h in dec.reachable(start=pb))
+            ok, w = dec.all_paths_pass(set(w_dec), exits | heads, start=dec.term(pb).get("t") if dec.term(pb).get("t") is not None else pb)
+            if not ok:
+                ctx.violation(R4, key + "|chosen-without-remembering", "a newly chosen snapshot is put into the release slot without being recorded in `last_released`", dec.loc(pb))
